@@ -678,9 +678,11 @@ class Progress(JupyterMixin, RenderHook):
             if not self._started:
                 return
             self._started = False
+            refresh_thread = self._refresh_thread
+            self._refresh_thread = None
             try:
-                if self.auto_refresh and self._refresh_thread is not None:
-                    self._refresh_thread.stop()
+                if self.auto_refresh and refresh_thread is not None:
+                    refresh_thread.stop()
                 self.refresh()
                 if self.console.is_terminal:
                     self.console.line()
@@ -688,9 +690,8 @@ class Progress(JupyterMixin, RenderHook):
                 self.console.show_cursor(True)
                 self._disable_redirect_io()
                 self.console.pop_render_hook()
-        if self._refresh_thread is not None:
-            self._refresh_thread.join()
-            self._refresh_thread = None
+        if refresh_thread is not None:
+            refresh_thread.join()
         if self.transient:
             self.console.control(self._live_render.restore_cursor())
         # the last frame is now permanent output (or erased): a later start() begins afresh
